@@ -66,6 +66,14 @@ def run(ctx):
         # restrict the mutators so that the number of hanging candidates stays small
         opts += ['--disable-all', '--erase-node']
         jobs.append(dict(text=text, opts=opts, cmd=[FAULTY, mode], env={}, timeout=400, mode=mode, which=which))
+    # cross-check command with faults (its time limit is derived from ITS golden run)
+    for i in range(6 if ctx.thorough else 2):
+        which = [PAIRS[i % 2]]
+        text = make_input(rng, which)
+        opts = ['--strategy', ['hierarchical', 'ddmin'][i % 2], '-j', str(1 + i % 2), '-c', FAULTY + ' exit1', '--disable-all', '--erase-node']
+        if i % 3 == 2:
+            opts += ['--timeout-cc', '0.5']
+        jobs.append(dict(text=text, opts=opts, cmd=[e2e.TOKPRED, 'all', 'keep'], env={}, timeout=240, mode='exit1', which=which))
     # mirror case: the golden run itself hangs (explicit timeout); candidates that die quickly must be rejected
     for i in range(4 if ctx.thorough else 1):
         text = make_input(rng, [PAIRS[2]])
